@@ -19,7 +19,12 @@ def sibling_project(project, syntax, section, rng_style):
     old = project["syntax"]
     p["syntax"] = syntax
     cfg = p["cfg"]
-    cfg["file_patterns"] = [[syntax if key == old else key, pats] for key, pats in cfg["file_patterns"]]
+    old_glob = layouts.config_glob_key(old)
+    new_glob = layouts.config_glob_key(syntax)
+    cfg["file_patterns"] = [[syntax if key == old else (new_glob if key == old_glob and p.get("cfg_glob") else key), pats]
+                            for key, pats in cfg["file_patterns"]]
+    if p.get("cfg_glob"):
+        p["cfg_glob"]["key"] = new_glob
     explicit_self = any(key == syntax for key, _ in cfg["file_patterns"])
     if configsyn.is_toml(syntax):
         style = {"toml_literal": rng_style.random() < 0.5, "toml_inline": rng_style.random() < 0.5}
@@ -141,7 +146,8 @@ class Siblings:
             if isinstance(got, tuple):
                 own = got[2]
                 content = invoker.snapshot(w.dir)[w.syntax].decode("utf-8")
-                if not own or not any(adapter.search_pattern_finds(project["version_pattern"], raw, content) for raw in own):
+                vline = "\n".join(ln for ln in content.splitlines() if ln.startswith("current_version"))
+                if not own or not any(adapter.search_pattern_finds(project["version_pattern"], raw, vline) for raw in own):
                     ctx.violation("C18", "self_pattern_missing", {"b": name},
                                   "%s: no pattern for the config file's own current_version line (%r)" % (name, own))
         valid = isinstance(ref, tuple)
